@@ -156,12 +156,11 @@ def run(ck):
 
     # ------------------------------------------------------------------ addSlotToEntry
     ck.rule("A1 addSlotToEntry: after any freeBadEntry() no path reaches mapSlot()/finalizeOrFree(); le.anchored(true) only with le.anchored() F; "
-            "RESPONSE(importEntry() F -> freeBadEntry), RESPONSE(totalSize != swap_file_sz -> freeBadEntry), RESPONSE(le.size > totalSize -> freeBadEntry)")
+            "RESPONSE(second inode -> freeBadEntry), RESPONSE(importEntry() F -> freeBadEntry), RESPONSE(totalSize != swap_file_sz -> freeBadEntry), RESPONSE(le.size > totalSize -> freeBadEntry)")
     ase = facts.fn(RB + "addSlotToEntry")
     need_locals(ck, ase, "le", "totalSize", "slotId", "header")
     bad = ev_call(RB + "freeBadEntry")
     fl = ck.flow(ase, markers={"bad": bad}, track_markers=["bad"])
-    ck.need(len(fl.find(bad)) >= 4, "C57: addSlotToEntry has fewer than 4 freeBadEntry() exits")
     for s in ck.sites(fl, ev_call({RB + "mapSlot", RB + "finalizeOrFree"}), "mapSlot|finalizeOrFree", 2):
         if s.env.get("#bad") == 1:
             ck.violation("A1.bad-entry-not-mapped", "A1|addSlotToEntry|after-freeBadEntry|%s" % E.strip(s.ev["x"]).get("f", "").split("::")[-1], s.where(),
@@ -176,6 +175,18 @@ def run(ck):
     imported = E.m_calls(RB + "importEntry")
     same_size = E.m_cmp("==", tot, swapsz)
     over = E.m_cmp("<", tot, size)
+    # the inode-conflict test is the le.anchored() evaluation made under (header.firstSlot == slotId); the earlier one only picks the chain head
+    inode = E.m_cmp("==", E.m_is_mem("Rock::DbCellHeader::firstSlot"), E.m_is_ref("slotId"))
+    inner = [e for e in ck.trigger_edges(ase, getter(LE + "anchored", "le"), True)
+             if any(n[0] == e[0] and any(f[0] == "A" and f[2] and inode(flp.trees[f[1]]) for f in fs) for n, fs in flp.IN.items())]
+    ck.need(len(inner) == 1, "C57: the inode-conflict test (le.anchored() under firstSlot == slotId) was not found in addSlotToEntry")
+    fr = ck.flow(ase, start=inner[0][2], markers={"R": bad})
+    missed = [x for x in fr.find(lambda ev: ev.get("e") == "exit" and ev.get("kind") in ("ret", "fall")) if not x.passed("R")]
+    if missed:
+        ck.violation("A1.inode-conflict-freed", "A1|addSlotToEntry|response:freeBadEntry()|after:second-inode", missed[0].where(),
+                     "addSlotToEntry: a second inode slot (le.anchored() true under firstSlot == slotId) does not lead to freeBadEntry() on all paths", fr.witness(missed[0]))
+    else:
+        ck.ok("A1.inode-conflict-freed", ase.where(ase.blocks[inner[0][0]]["term"].get("l")), "a second inode slot always leads to freeBadEntry()")
     ck.require_response("A1.bad-metainfo-freed", ase, imported, False, bad, "freeBadEntry()")
     ck.require_response("A1.size-mismatch-freed", ase, same_size, False, bad, "freeBadEntry()")
     ck.require_response("A1.overflow-freed", ase, over, True, bad, "freeBadEntry()")
@@ -183,7 +194,6 @@ def run(ck):
     ck.rule("A2 addSlotToEntry dominance: the size bookkeeping after the inode block (and so mapSlot) is reached only with not-an-inode-slot, or importEntry() T and "
             "(header.entrySize unknown | anchor size was unknown | totalSize == swap_file_sz); mapSlot() only with (totalSize > 0) F or (le.size > totalSize) F; "
             "finalizeOrFree() only with le.size == totalSize")
-    inode = E.m_cmp("==", E.m_is_mem("Rock::DbCellHeader::firstSlot"), E.m_is_ref("slotId"))
     join = lambda ev: ev.get("e") == "decl" and ev.get("d") == "totalSize" and swapsz(ev.get("init"))
     ck.require_any("A2.inode-metainfo-gate", ase, join, [(inode, False), (imported, True)], "totalSize = swap_file_sz",
                    why="(an entry whose metadata failed to parse would keep loading)")
